@@ -51,7 +51,7 @@ theorem c11_ref_create (c : Cfg) (now : Int) (k : Nat) (wk : WriteKind) :
       match c.refresh with
       | .none => maxI64
       | .creating d | .writing d | .accessing d => satAdd now d
-      | .custom => satAdd now (c.refCreate.get k) := by
+      | .custom => if c.refCreate.get k > 0 then satAdd now (c.refCreate.get k) else maxI64 := by
   unfold refAfterWrite; cases c.refresh <;> rfl
 
 /-- creation-only refresh policy: an update or reload keeps the deadline -/
